@@ -1,6 +1,7 @@
 //! Verification hooks, only compiled with `--cfg adf_obdd_verif`.
 //!
-//! A thread-local step budget which allows a harness to turn a non-terminating search into a recognisable panic.
+//! A thread-local step budget which allows a harness to turn a non-terminating search into a recognisable panic, and a
+//! thread-local recursion-depth guard which turns a runaway recursion into a panic before the stack overflows.
 
 use std::cell::Cell;
 
@@ -34,4 +35,35 @@ pub fn tick() {
             panic!("{}", BUDGET_EXHAUSTED);
         }
     }
+}
+
+thread_local! {
+    static DEPTH: Cell<usize> = const { Cell::new(0) };
+}
+
+/// Deepest recursion the guarded functions may reach (a diagram has at most as many levels as there are variables; the
+/// limit has to strike before a 2 MiB thread stack is used up).
+pub const RECURSION_LIMIT: usize = 2_000;
+
+/// Payload of the panic raised by [`enter`] when the recursion limit is exceeded.
+pub const RECURSION_EXHAUSTED: &str = "adf_obdd_verif: recursion limit exceeded";
+
+/// Token of one level of a guarded recursion; leaving the level (also by unwinding) drops it.
+#[derive(Debug)]
+pub struct DepthGuard(());
+
+impl Drop for DepthGuard {
+    fn drop(&mut self) {
+        DEPTH.with(|d| d.set(d.get().saturating_sub(1)));
+    }
+}
+
+/// Enters one level of a guarded recursion; panics with [`RECURSION_EXHAUSTED`] beyond [`RECURSION_LIMIT`] levels.
+pub fn enter() -> DepthGuard {
+    let depth = DEPTH.with(|d| d.get());
+    if depth >= RECURSION_LIMIT {
+        panic!("{}", RECURSION_EXHAUSTED);
+    }
+    DEPTH.with(|d| d.set(depth + 1));
+    DepthGuard(())
 }
